@@ -245,6 +245,19 @@ pub fn run(o: &mut Out, tier: &str, seed: u64) {
     for len in [126usize, 127, 128, 129, 16383, 16384] { let st: String = (0..len).map(|i| if i % 5 == 0 { '\u{e9}' } else { 'x' }).collect(); check(o, &mut r, &st, "string", "string"); }
     let hh = Hash(r.arr32()); check(o, &mut r, &hh, "key", "fixed");
     addresses(o, &mut r);
+    // typed keys: every 32-byte string `PublicKey::from_slice` / `PrivateKey::from_slice` accepts (random valid ones and the special encodings:
+    // identity, small-order points, torsioned points; scalars 0, 1, l-1) serialises and parses back — alone and inside a typed extra field
+    { use monero::{PrivateKey, PublicKey}; use curve25519_dalek::scalar::Scalar;
+      let mut pks: Vec<PublicKey> = vec![]; let mut tries = 0;
+      while tries < 400 { tries += 1; let b = if tries % 4 == 0 { PublicKey::from_private_key(&PrivateKey::from_scalar(Scalar::from_bytes_mod_order(r.arr32()))).to_bytes() } else { gen::special_point(&mut r) };
+          if let Ok(k) = PublicKey::from_slice(&b) { if !pks.contains(&k) || tries % 4 == 0 { pks.push(k); } } }
+      for k in &pks { check_m(o, &mut r, k, "publickey", "typed-keys", false); o.stat(if tries > 0 { "typed-keys.public" } else { "" }); }
+      // a torsioned point: valid key + a small-order point (accepted by from_slice; not in the prime-order subgroup)
+      { use curve25519_dalek::edwards::CompressedEdwardsY; let g = curve25519_dalek::constants::ED25519_BASEPOINT_POINT;
+        for sp in pks.clone() { if let Some(t) = CompressedEdwardsY(sp.to_bytes()).decompress() { let q = (Scalar::from_bytes_mod_order(r.arr32()) * g + t).compress().to_bytes();
+            if let Ok(k) = PublicKey::from_slice(&q) { check_m(o, &mut r, &k, "publickey", "typed-keys", false); o.stat("typed-keys.torsioned"); } } } }
+      for sc in [Scalar::ZERO, Scalar::ONE, -Scalar::ONE, Scalar::from_bytes_mod_order(r.arr32())] { let k = PrivateKey::from_scalar(sc); check_m(o, &mut r, &k, "privatekey", "typed-keys", false); }
+      crate::c16::run_extrafield_keys(o, &pks); }
     // extra sub-fields (component records of the transaction extra): boundary sizes of every kind, alone and with a suffix
     crate::c16::run_subfield_rt(o, &mut r, if tier == "thorough" { 4000 } else { 400 });
     crate::c16::run_extrafield_enc(o, &mut r, if tier == "thorough" { 2000 } else { 200 });
